@@ -653,6 +653,7 @@ package graph
 //@     && forall(k, any, imp(has(g.hash, k) && !has(visited, k), inq(q, qi[k])))
 //@     && forall(k, any, imp(has(visited, k), has(g.hash, k)))
 //@     && forall(k, any, imp(in(k, fin), has(visited, k)))
+//@     && forall(k, any, imp(has(g.hash, k) && qi[k].previous != nil, has(g.hash, qi[k].previous)))
 
 // the certificate on the finite part (S0, S1), the frozen part (S4) and the tentative part
 //@ ghost dC0(g *Graph, qi ItemM, visited VisitM, s any) bool = dd(qi, s) == 0 && pp(qi, s) == nil && imp(cnt > 0, in(s, fin)) && imp(has(visited, s), in(s, fin)) && has(g.hash, s)
@@ -675,7 +676,7 @@ package graph
 //@   before "visited := map" set fin = emptyset(any)
 //@   before "visited := map" set frozen = false
 //@   before "visited := map" set cnt = 0
-//@   after "visited[u.v] = struct{}{}" set fin = ite(u.distance < 2147483647, add(fin, u.v), fin)
+//@   after "visited[u.v] = struct{}{}" set fin = ite(!frozen && u.distance < 2147483647, add(fin, u.v), fin)
 //@   after "visited[u.v] = struct{}{}" set frozen = frozen || !(u.distance < 2147483647)
 //@   after "visited[u.v] = struct{}{}" set cnt = cnt + 1
 //@   loop 1 invariant graphKept() && rmap1 == g.hash && queueItem != nil && fresh(queueItem) && idxinv(queue) && len(queue) == len(seen1)
@@ -683,6 +684,7 @@ package graph
 //@   loop 1 invariant forall(k, any, imp(in(k, seen1), queueItem[k] != nil && fresh(queueItem[k]) && queueItem[k].v == k && queueItem[k].distance == 2147483647 && queueItem[k].previous == nil && inq(queue, queueItem[k])))
 //@   loop 1 invariant forall(x, *distQueueItem, imp(inq(queue, x), in(x.v, seen1) && queueItem[x.v] == x))
 //@   loop 2 invariant graphKept() && queueItem != nil && visited != nil && srchash == hc(src) && idxinv(queue) && keysOK(queue) && cnt >= 0 && cnt + len(queue) == len(g.hash)
+//@   loop 2 invariant imp(cnt == 0, !frozen && forall(k, any, !has(visited, k)))
 //@   loop 2 invariant dStruct(g, queueItem, queue, visited)
 //@   loop 2 invariant dC0(g, queueItem, visited, srchash)
 //@   loop 2 invariant dC1(g, queueItem, visited, srchash)
@@ -693,7 +695,7 @@ package graph
 //@   loop 2 invariant dC6(g, queueItem, visited, srchash)
 //@   loop 2 invariant forall(a, any, b, any, imp(in(a, fin) && edge(g, a, b), dd(queueItem, b) <= dd(queueItem, a) + wgt(g, a, b) && (in(b, fin) || !frozen)))
 //@   loop 3 invariant graphKept() && queueItem != nil && visited != nil && srchash == hc(src) && idxinv(queue) && keysOK(queue) && cnt >= 1 && cnt + len(queue) == len(g.hash)
-//@   loop 3 invariant u != nil && has(g.hash, u.v) && queueItem[u.v] == u && has(visited, u.v) && !inq(queue, u) && rmap3 == g.adjacencyOut[u.v] && (u.distance < 2147483647) == in(u.v, fin) && imp(!in(u.v, fin), frozen)
+//@   loop 3 invariant u != nil && has(g.hash, u.v) && queueItem[u.v] == u && has(visited, u.v) && !inq(queue, u) && rmap3 == g.adjacencyOut[u.v] && imp(!in(u.v, fin), frozen) && imp(in(u.v, fin), 0 <= u.distance && u.distance < 2147483647) && imp(!frozen, in(u.v, fin))
 //@   loop 3 invariant dStruct(g, queueItem, queue, visited)
 //@   loop 3 invariant dC0(g, queueItem, visited, srchash)
 //@   loop 3 invariant dC1(g, queueItem, visited, srchash)
